@@ -99,6 +99,11 @@ def static_locks(tier, seed, build, repo, verif):
     os.makedirs(gen)
     rc, out = _sh([tbin, "-repo", repo, "-out", os.path.join(gen, "Skeleton.v"), "-stats", os.path.join(gen, "stats.json"),
                    "-order", os.path.join(gen, "order.json")], env=env)
+    order_msgs = []
+    if rc == 3:
+        # the skeleton was written; some nested acquisition cannot be placed in the lock-class order
+        order_msgs = [l for l in out.splitlines() if l.startswith("translator:")]
+        rc = 0
     if rc:
         msgs = [l for l in out.splitlines() if l.startswith("translator:")]
         yield ("lock-skeleton-extracted", False,
@@ -114,6 +119,14 @@ def static_locks(tier, seed, build, repo, verif):
                stats["functions_seen"], len(stats["packages"]), stats["functions_with_lock_operations"],
                stats["functions_emitted"], stats["functions_with_declared_summary"], stats["functions_with_panic_bound"],
                stats["functions_modelled_elsewhere"], stats["lock_classes"], stats["lock_order_edges"], stats["justified_nestings"]), None)
+    if order_msgs:
+        yield ("lock-order-graph-extracted", False,
+               "a nested acquisition cannot be placed in the lock-class order (class unknown, or a blocking acquisition of a mutex of the "
+               "same class as one that is held, outside one LockPile, without a justification in translator/summaries.json); "
+               "the graph repo_lock_order_acyclic is about cannot be extracted from the sources:\n" + "\n".join(order_msgs[:12]),
+               {"translator": order_msgs[:50]})
+    else:
+        yield ("lock-order-graph-extracted", True, "every nested blocking acquisition has a class and a place in the graph", None)
     # one file: the generated skeleton followed by the obligations
     src = open(os.path.join(gen, "Skeleton.v")).read().replace(
         "From Coq Require Import String List ZArith.", "From Coq Require Import String List Bool ZArith.").replace(
@@ -141,6 +154,8 @@ def static_locks(tier, seed, build, repo, verif):
             note += "; entry points missing from the skeleton: " + ", ".join(unknown)
         yield ("repo_balanced", False, note, {"failing_functions": failing, "skeleton": os.path.join(gen, "Skeleton.v")})
         return
+    if order_msgs:
+        residue = []  # reported above; the graph is incomplete, nothing to say about cycles
     if residue is None:
         yield ("repo_lock_order_acyclic", False, "could not evaluate the order checker on the generated graph:\n" + out[-1500:], None)
         return
@@ -177,6 +192,8 @@ def static_locks(tier, seed, build, repo, verif):
            "on returning and panicking paths; Closed under the global context", None)
     yield ("repo_panic_paths_release_covered", True,
            "corollary of balanced_panic_covered: on a function's own panic the locks its pending defers cover are released exactly", None)
+    if order_msgs:
+        return
     yield ("repo_lock_order_acyclic", True,
            "acyclic lock_edges = true by vm_compute (%d classes, %d edges; %d justified nestings listed in translator/summaries.json); "
            "repo_lock_order_no_cycle through acyclic_sound, Closed under the global context" % (
